@@ -542,3 +542,95 @@ def k1_declaration_creates_local(res, tier):
         if not any(isinstance(r.info, dict) and r.info.get('diagnostic') for r in results if r.kind == 'ok'):
             res.inconclusive(f'Compiler::{fname}: the path with the too-many-locals diagnostic was not reached')
         summarize_paths(res, e, results, lambda r: r.info if isinstance(r.info, dict) else None, key_prefix=f'C15.K1:{fname}:', unwind_ok=False)
+
+
+# ---------------------------------------------------------------------------------------------- K2 counters of the scanner's loops
+@obligation('C15.K2.scanner_escape_counter', 'C15', programs=('vm',), also=('C16',))
+def k2_escape_counter(res, tier):
+    """Scanner::string, ONE iteration of the loop that reads the digits of a `\\u{...}` escape, from ANY value of its u8 digit counter
+    and any next character: the counter never overflows (the loop leaves with a diagnostic before it can), so an escape of any
+    length — far beyond the texts the whole-scanner obligations can enumerate — ends in a diagnostic and not in a host panic"""
+    from mirsym.mir import parsed_block
+    P = get_program('vm')
+    f = P.lookup('compiler::scanner::Scanner::string')
+    if f is None:
+        res.inconclusive('Scanner::string not located')
+        return
+    cnt = f.debug.get('len')
+    head = None
+    succ = {}
+    for bb in f.blocks:
+        stmts, term, _ = parsed_block(f, bb)
+        succ[bb] = set(re.findall(r"'(bb\d+)'", repr(term)))
+        if cnt and any(s[0] == 'assign' and s[1] == ('place', cnt, ()) and s[2] == ('use', ('const', '0_u8')) for s in stmts) and term[0] == 'goto':
+            head = term[1]
+            init_bb = bb
+    if head is None:
+        res.inconclusive('Scanner::string: the digit loop of the unicode escape was not found (counter `len` initialised to 0_u8)')
+        return
+
+    def reach(src):
+        # inside the digit loop: paths that come back to the head without re-entering the loop through its initialisation
+        seen, todo = set(), [src]
+        while todo:
+            b = todo.pop()
+            for s in succ.get(b, ()):
+                if s not in seen and s != init_bb:
+                    seen.add(s)
+                    todo.append(s)
+        return seen
+    body = {b for b in reach(head) if head in reach(b)} | {head}
+    res.bounds = {'digits read so far': 'any u8', 'next character': 'any, or the end of the text', 'loop blocks': len(body)}
+    res.assumptions = ['Scanner::next answers any character or the end of the text']
+    e = Engine(P, loop_bound=3, timeout_s=60)
+    opt = P.enum_def('Option')
+
+    def m_next(e_, a, c):
+        oty = norm_ty(c.dest_ty)
+        if e_.fork_bool(z3.Bool(e_.fresh_name('end_of_text'))):
+            return e_.mk_option(e_, oty)
+        ch = z3.BitVec(e_.fresh_name('char'), 32)
+        e_.add_constraint(z3.And(z3.ULE(ch, 0x10FFFF), z3.Or(z3.ULT(ch, 0xD800), z3.UGT(ch, 0xDFFF))))
+        return e_.mk_option(e_, oty, ch)
+    e.model(r'^(compiler::)?(scanner::)?Scanner::next$', m_next)
+    e.allow_havoc(r'^(compiler::)?(scanner::)?Scanner::(?!string$|next$)\w+$')
+
+    def path(e):
+        k = z3.BitVec('digits_so_far', 8)
+        q = z3.BitVec('quote_char', 32)
+        e.add_constraint(z3.ULE(q, 0x7F))
+
+        def stop(eng, fr):
+            if fr.visits[head] >= 2:
+                raise PathEnd('stop', fr)
+        e.bb_hooks[(f.key, head)] = stop
+
+        def left(eng, fr):
+            raise PathEnd('left_loop', fr)
+        for b in f.blocks:
+            if b not in body:
+                e.bb_hooks[(f.key, b)] = left
+        me = Ref(Cell(e.fresh('compiler::scanner::Scanner', 'scanner')))
+        preset = {cnt: k, f.debug['self']: me}
+        if f.debug.get('quote_char'):
+            preset[f.debug['quote_char']] = q
+        if f.debug.get('start'):
+            preset[f.debug['start']] = z3.BitVec('escape_start', 64)
+        fargs = [me] + [e.fresh(aty, f'string_arg{i}') for i, (an, aty) in enumerate(f.args[1:])]
+        try:
+            e.exec_fn(f, fargs, 0, None, start_bb=head, preset=preset)
+        except PathEnd as pe:
+            if pe.kind not in ('stop', 'left_loop'):
+                raise
+            e.check(True, 'one iteration of the digit loop: the counter stayed in range')
+            return {'iteration': 'next digit' if pe.kind == 'stop' else 'the loop was left (closing brace or diagnostic)'}
+        e.check(True, 'one iteration of the digit loop: the counter stayed in range')
+        return {'iteration': 'function returned'}
+    results = e.explore(path)
+    for r in results:
+        if r.kind == 'panic':
+            res.fail('C15.K2:the digit counter of a unicode escape overflows', 'Scanner::string counts the characters of a `\\u{...}` escape in a u8 and does not leave the loop before the counter '
+                     f'can overflow: an escape of 256 characters ends the scanner in a host panic ({str(r.info)[:120]})', {'path': str(r.info)})
+        elif r.kind in ('oob', 'unreachable', 'ub', 'diverge', 'depth'):
+            res.fail(f'C15.K2:escape_counter:{r.kind}', f'Scanner::string: path ends in {r.kind}: {str(r.info)[:200]}', {'path': str(r.info)})
+    summarize_paths(res, e, results, lambda r: r.info if isinstance(r.info, dict) else None, key_prefix='C15.K2:escape:', unwind_ok=True)
